@@ -2,6 +2,7 @@
    (negative, larger than the DFT size, fractional), every segment / start index /
    DFT size, the default DFT size and the copy flag. *)
 From Coq Require Import Reals ZArith List Bool Lia Lra.
+Set Warnings "-ambiguous-paths".
 From Coquelicot Require Import Complex.
 From Verif Require Import lib.C20_Numpy gen.WinHelp C20.Model C20.ProofsGamma.
 Import ListNotations.
